@@ -264,6 +264,9 @@ def main(tier, replay):
             return _mk(*a, **kw)
         for i in range(n):
             fk = rng.choice(["regionerr:EpochNotMatch", "regionerr:NotLeader", "regionerr:ServerIsBusy", "split", "split", "dropresp", "push_min_commit", "reader"])
+            if fk == "dropresp" and rng.random() < 0.6:
+                # the lost answer surfaces as one of the errors a transport can return (context / gRPC status / EOF)
+                fk = "dropresp:" + rng.choice(["ctx_canceled", "ctx_deadline", "grpc_canceled", "grpc_unavailable", "grpc_deadline", "grpc_unknown", "eof"])
             if fk == "reader" and rng.random() < 0.5:
                 fk = "reader_clockjump"   # the reader's clock jumps while its status check is on its way back
             if fk in ("push_min_commit", "reader", "reader_clockjump"):
